@@ -22,6 +22,7 @@ Line protocol for the Python dispatch model.
   getlist <accepted tags '.'-joined> <obj>            get_from_object_<T>_list
   fill    <accepted tags> <insize> <obj>              fill_from_PyObject_<T>_list (buffer cells are printed as b<i>)
   charptr <obj>                                       get_from_object_charptr (tags: 1 str, 6 bytes, 4 None)
+  fillchar <cap> <s:len | b:len | n | o>              fill_from_PyObject_char on a member of cap cells, and what the getter reads back
 -/
 namespace Driver
 open Shroud.PyDispatch
@@ -180,6 +181,26 @@ def handleCharPtr : List String → String
       if v.tag == 1 then .str [v.id] else if v.tag == 6 then .bytes [v.id] else if v.tag == 4 then .none else .other
     let conv : Val → Option String := fun v => (charConv (toChar v)).map (fun d => match d with | some _ => s!"v{v.id}" | none => "null")
     encOut id (getFromObjectList conv (decObj obj))
+  | _ => "bad-op"
+
+open Shroud.PyList in
+def encCell : Cell → String
+  | .chr c => s!"c{c}"
+  | .nul => "z"
+  | .old i => s!"b{i}"
+
+open Shroud.PyList in
+def handleFillChar : List String → String
+  | [cap, obj] =>
+    let o : CharObj :=
+      if obj.startsWith "s:" then .str (List.range (obj.drop 2).toString.toNat!)
+      else if obj.startsWith "b:" then .bytes (List.range (obj.drop 2).toString.toNat!)
+      else if obj == "n" then .none else .other
+    match fillChar cap.toNat! o with
+    | none => "err"
+    | some cells =>
+      let enc := fun (l : List Cell) => if l.isEmpty then "~" else ",".intercalate (l.map encCell)
+      "ok " ++ enc cells ++ " " ++ enc (readCells cells)
   | _ => "bad-op"
 
 end Driver
